@@ -221,6 +221,7 @@ func c10Models(e *c10Env) {
 
 // c10SrvOutcome reports a server-side case (panic, hang, allocation, answer) and returns ok | err | panic | hang.
 func c10SrvOutcome(e *c10Env, name, input string, rt *c10RT, run c10Run) string {
+	e.notePos("model:"+name, rt.srvAlloc, len(rt.wire))
 	if rt.srvAlloc > e.maxSrvAlloc {
 		e.maxSrvAlloc, e.maxSrvWhat = rt.srvAlloc, name+" "+c10Short(input)
 	}
